@@ -168,12 +168,43 @@ def compose(n, fmt, path, opts):
     sdn.compose(n, path, **o)
 
 
+# a hierarchical EBLIF design (a model with a body instantiated below the top) and one with a wide .names
+EXTRA_SOURCES = {
+    'eblif': [('hier.eblif', """# hierarchical
+.model top
+.inputs a b
+.outputs y z
+.subckt mid i0=a i1=b o=n1
+.cname u_mid0
+.subckt mid i0=n1 i1=b o=y
+.cname u_mid1
+.names a b n1 z
+111 1
+.end
+
+.model mid
+.inputs i0 i1
+.outputs o
+.names i0 i1 o
+11 1
+.end
+"""), ('wide.eblif', """# wide gate
+.model top
+.inputs i0 i1 i2 i3 i4 i5 i6 i7 i8 i9 i10 i11
+.outputs y
+.names i0 i1 i2 i3 i4 i5 i6 i7 i8 i9 i10 i11 y
+111111111111 1
+.end
+""")],
+}
+
+
 def netlists(rng, tier, tmpdir):
     """(label, format, netlist) of netlists composable in that format"""
     nfiles = 3 if tier == 'quick' else 25
     maxb = 40000 if tier == 'quick' else 300000
     for fmt in ('edif', 'verilog', 'eblif'):
-        for name, text in policy_check.sources(fmt, nfiles, maxb):
+        for name, text in policy_check.sources(fmt, nfiles, maxb) + EXTRA_SOURCES.get(fmt, []):
             p = os.path.join(tmpdir, 'src' + EXT[fmt])
             open(p, 'w').write(text)
             try:
